@@ -15,7 +15,8 @@ PROPERTY = {
               'from their call site, which also serves C01.tabs / C13.dedent)',
               'core.parse_docstr_examples: a DoctestParseError or MalformedDocstr of the style parser produces exactly one warning and no '
               'exception; every other path emits no warning; building the message cannot raise (str.format is applied to literal templates '
-              'only -- a template containing docstring text may raise and is reported); KeyError iff the style is unknown; each parsed example is yielded once'],
+              'only -- a template containing docstring text may raise and is reported); KeyError iff the style is unknown; each parsed example is yielded once',
+              'util_str.ensure_unicode (applied to the docstring before it is parsed): a str is returned unchanged'],
         'T': ['the three phases and the three style parsers are assumed contracts here ("may raise anything" / "raise only the library\'s own errors")',
               'termination of tokenize / ast.parse / re'],
         'B': ['texts generated from a grammar of prompt fragments, brackets, quotes, backslashes, directive fragments, control characters and keywords: parse(text) returns or raises DoctestParseError within a time limit; embedded as one docstring between two valid ones x 3 styles, collection raises nothing, the neighbours are collected and pass, and (freeform) a docstring that does not parse gives a warning and no example (bounded/c14_contain.py)',
